@@ -19,7 +19,7 @@ THEOREMS = ['C01_order', 'C01_invalid', 'C01_payload', 'C01_unknown_event']
 
 
 def gen(rng, i, tier):
-    c = flat.gen_case(rng, malformed=(i % 7 == 6))
+    c = flat.gen_case(rng, malformed=(i % 7 == 6), p_build=0.3)
     if i % 4 == 1:
         # may_<event>() calls interleaved with the triggers: they must not influence what later triggers do
         hist = []
